@@ -71,7 +71,7 @@ VH_EXPORT int vp_h09k_row(const unsigned char* in, unsigned char* out) {
 	out[0] = (unsigned char)rc; out[1] = (unsigned char)cells; out[2] = (unsigned char)nf; out[3] = same;
 	return rc == vh::OK && cells == (size_t)nf && same && r.IsEnd();
 }
-//@ OBL {"name": "h09k_escape", "prop": "vp_h09k_escape", "in": 8, "out": 16, "unwind": 12, "unwind_models": 8, "fs": 32, "cap_s": 900, "backends": ["default", "kissat"], "bounds": "every field content of length <= 4 (all byte values), separators , ; TAB SPACE |", "desc": "WriteEscapedValue: an independent RFC 4180 parser recovers the field exactly; plain fields verbatim"}
+//@ OBL {"name": "h09k_escape", "prop": "vp_h09k_escape", "in": 8, "out": 16, "unwind": 12, "unwind_models": 8, "fs": 32, "cap_s": 1800, "backends": ["default", "kissat"], "bounds": "every field content of length <= 4 (all byte values), separators , ; TAB SPACE |", "desc": "WriteEscapedValue: an independent RFC 4180 parser recovers the field exactly; plain fields verbatim"}
 //@ OBL {"name": "h09k_row", "prop": "vp_h09k_row", "assume": "va_h09k_row", "in": 8, "out": 16, "unwind": 9, "unwind_models": 8, "fs": 32, "cap_s": 3600, "mem_gb": 40, "tier": "open", "backends": ["default", "kissat"], "bounds": "every text of length 1..4 that is one RFC 4180 record (reference parser), five separators, no header", "desc": "CCsvStringReader::ParseNextRow + ReadValue == reference cells (count, contents), input consumed"}
 //@ VEC * 0003612c62000000
 //@ VEC * 0004226122000000
